@@ -62,6 +62,14 @@ class Ctx:
         self.info = []
         self.extra = {}
 
+    def expanded(self):
+        """A context over the fully expanded view of the program (private same-class helpers
+        inlined into their callers); obligations are recorded into this context."""
+        x = Ctx(self.p.expanded(), self.prop, self.tier)
+        x.obs, x.errors, x.info, x.extra = self.obs, self.errors, self.info, self.extra
+        x.cur_rule = self.cur_rule
+        return x
+
     # -- recording -----------------------------------------------------------
     def ob(self, func, construct, ok, detail='', node=None, trivial=False, rule=None):
         """Record one obligation.  func: FuncInfo or qualname; construct: AST node
